@@ -350,6 +350,20 @@ theorem write_local (new : PT) (r : Nat) (q : Path) (F : List PT) (r' : Nat) (hn
   | none => rfl
   | some t => exact List.getElem?_set_ne (Ne.symm hne)
 
+/-- the same inside one tree: a write at path `a` leaves the object at every path that is neither above nor below `a`
+untouched (a copy assigned into another branch of the same tree is as independent as one in another tree) -/
+theorem write_disjoint (new : PT) {a b : Path} (F : List PT) (h1 : isPrefix a b = false) (h2 : isPrefix b a = false) :
+    getF b (putF new a F) = getF b F :=
+  getF_putF_disj h1 h2
+
+/-- a write at `b` that is not above `a` keeps the object at `a` in place: same address, value, `parent_` and number of
+children (only something below it changed) -/
+theorem write_below_keeps_node (new : PT) {a b : Path} {F : List PT} {t : PT} (h : isPrefix b a = false)
+    (ht : getF a F = some t) :
+    ∃ t', getF a (putF new b F) = some t' ∧ t'.kids.length = t.kids.length ∧ t'.val = t.val ∧ t'.id = t.id ∧
+      t'.parent = t.parent :=
+  getF_putF_not_below h ht
+
 /-! ## non-vacuity and the repaired defect -/
 
 /-- a history with inner-node operands of every binary kind runs to completion (so the theorems above are not vacuous) -/
